@@ -237,6 +237,29 @@ theorem activations_eq (cfg : Config) (vals w : List Validator) (cur fin limit :
   funext w index
   cases w[index]? <;> rfl
 
+/-- `registry_updates_eq`: the whole of `phase0.ProcessEpochRegistryUpdates` / `deneb.ProcessEpochRegistryUpdates`
+(snapshot scan, batched ejections, eligibility marks, sorted-prefix activations with the fork's limit) equals the
+whole of the spec's `process_registry_updates` (first loop with sequential `initiate_validator_exit`, then the
+activation queue computed from the UPDATED registry, with the churn limit recomputed from the updated registry),
+for every configuration, epoch, finalized epoch `≤ current` and registry with small epochs. -/
+theorem registry_updates_eq (cfg : Config) (deneb : Bool) (cur fin : Nat) (vals : List Validator)
+    (hsmall : Lemmas.EpochsSmall cfg cur vals) (hfin : fin ≤ cur) :
+    Impl.processEpochRegistryUpdates cfg deneb cur fin vals vals =
+      registry_activations_pure cfg cur fin
+        (if deneb then min cfg.MAX_PER_EPOCH_ACTIVATION_CHURN_LIMIT
+            (churn_limit_of cfg (registry_eligibility_and_ejections_pure cfg cur vals) cur)
+         else churn_limit_of cfg (registry_eligibility_and_ejections_pure cfg cur vals) cur)
+        (registry_eligibility_and_ejections_pure cfg cur vals) := by
+  unfold Impl.processEpochRegistryUpdates
+  simp only []
+  rw [registry_first_loop_eq cfg cur vals hsmall, activations_eq cfg vals _ cur fin _ hfin,
+    Lemmas.churn_limit_first_loop]
+  have hcur : cur < FAR_FUTURE_EPOCH := by
+    have := hsmall.1; unfold compute_activation_exit_epoch at this; omega
+  unfold registry_activations_pure
+  rw [Lemmas.activation_queue_first_loop cur fin vals _ (Lemmas.queueView_first_loop cfg cur vals) hfin hcur]
+  rfl
+
 /-- non-vacuity: a finalized epoch not after the current one -/
 example : ∃ fin cur : Nat, fin ≤ cur := ⟨3, 5, by decide⟩
 
